@@ -337,9 +337,11 @@ def eval_dyad_find(a, b, backend):
     elif is_dict(a):
         v = a.get(b)
         return KLONG_UNDEFINED if v is None else v
-    if is_list(b):
-        return bknp.asarray([i for i,x in enumerate(a) if backend.kg_equal(x, b)])
-    return bknp.where(bknp.asarray(a) == b)[0]
+    a = bknp.asarray(a)
+    if is_list(b) or a.ndim > 1 or a.dtype == object:
+        # match whole elements: rows of a matrix and nested lists are single elements
+        return bknp.asarray([i for i,x in enumerate(a) if backend.kg_equal(x, b)], dtype=int)
+    return bknp.where(a == b)[0]
 
 
 def __e_dyad_form(a, b, backend):
